@@ -332,12 +332,20 @@ Proof.
 Qed.
 
 (* ------------------------------------------------------------------ one step *)
+(* the argument made from the identifier's own bytes respects the calling convention *)
+Lemma self_arg_ok d off len : name_ok (Some (fst (self_arg d off len))) (snd (self_arg d off len)).
+Proof.
+  unfold self_arg. destruct len as [n|]; cbn [fst snd name_ok]; [apply Nat.le_min_r|].
+  destruct (existsb (N.eqb 0) (skipn off d)) eqn:E; cbn [fst snd name_ok]; [|apply Nat.le_refl].
+  apply existsb_exists in E. destruct E as (x & Hin & Hx). apply N.eqb_eq in Hx. subst x. exact Hin.
+Qed.
+
 Lemma mstep_refines w o :
   winv w -> op_ok o ->
   exists w' out, mstep w o = Ok (w', out) /\ winv w' /\ sstep (absw w) o = (absw w', pout out).
 Proof.
   intros Hw Hok. pose proof Hw as (Hh & Hids & Hdis & Hown).
-  destruct o as [i name len|i [j|]|i name nlen|i j|len|len|i name len|i name nlen|i|i j|i j|i total]; cbn [mstep sstep op_ok] in *.
+  destruct o as [i name len|i [j|]|i name nlen|i j|len|len|i name len|i name nlen|i|i j|i j|i total|i off len]; cbn [mstep sstep op_ok] in *.
   - (* set *)
     destruct (nth_error (wids w) i) as [id|] eqn:Ei.
     2:{ rewrite (absw_none _ _ Ei). exists w, ORefused. auto. }
@@ -487,7 +495,32 @@ Proof.
     destruct (reinit_step w i id total Hw Ei Hok) as (h1 & id1 & fresh & E1 & F1 & F3 & A2 & C2 & Hf & _).
     unfold xinit. rewrite F1, E1. cbn [bind].
     eexists _, ODone. split; [reflexivity|]. split; [exact A2|]. rewrite C2. reflexivity.
+  - (* set from the identifier's own content *)
+    destruct (nth_error (wids w) i) as [id|] eqn:Ei.
+    2:{ rewrite (absw_none _ _ Ei). exists w, ORefused. auto. }
+    destruct (Hids _ _ Ei) as [d Hd]. rewrite (absw_nth _ _ _ _ Ei Hd).
+    rewrite (idata_ok _ _ _ Hd). cbn [bind snd].
+    pose proof (self_arg_ok d off len) as Hn.
+    destruct (self_arg d off len) as [bs l]. cbn [fst snd] in Hn.
+    pose proof (iset_closed (wh w) id d (Some bs) l Hd Hh Hn) as Hc.
+    destruct (sset (ics id, d) (Some bs) l) as [v' [|]].
+    + destruct Hc as (id' & E1 & E2). rewrite E1. cbn [lift_set bind].
+      destruct (replace_slot w i id d id' (fst v') (snd v') Hw Ei Hd E2) as [A C].
+      eexists _, ODone. split; [reflexivity|]. split; [exact A|].
+      rewrite C. destruct v'; reflexivity.
+    + destruct Hc as [E1 E2]. rewrite E1. cbn [lift_set bind].
+      rewrite (set_nth_same _ _ _ Ei).
+      exists w, ORefused. destruct w as [h0 ids0]. simpl. split; [reflexivity|]. split; [exact Hw|].
+      subst v'. rewrite set_nth_same; [reflexivity|]. apply (absw_nth (mkw h0 ids0)); auto.
 Qed.
+
+(* a set whose name lies inside the identifier's own content (any offset, any
+   length request, inline or allocated content) needs no precondition *)
+Lemma set_self_refines w i off len :
+  winv w ->
+  exists w' out, mstep w (OSetSelf i off len) = Ok (w', out) /\ winv w' /\
+                 sstep (absw w) (OSetSelf i off len) = (absw w', pout out).
+Proof. intros Hw. apply mstep_refines; [exact Hw|exact I]. Qed.
 
 (* ------------------------------------------------------------------ histories *)
 Theorem mrun_refines ops : forall w,
